@@ -142,6 +142,12 @@ def run_case(rs, cfg):
     """one learn_spn run with recording; returns dict with everything the tie needs (or error)."""
     from deeprob.spn.learning import learnspn as LS
     X, dists, doms = gen_data(rs, cfg["kind"], cfg["n"], cfg["d"])
+    if cfg.get("wide_keep"):
+        d_ = X.shape[1]
+        keep = set(int(v) for v in rs.choice(d_ - 1, size=cfg["wide_keep"] - 1, replace=False)) | {d_ - 1 - int(rs.randint(0, 2))}
+        for j in range(d_):
+            if j not in keep:
+                X[:, j] = X[0, j]
     rec = Recorder(rs, cfg["rows"], cfg["cols"], cfg["leaf"], cfg["adv"])
     LS._VERIF_TRACE = []
     try:
@@ -188,6 +194,12 @@ def configs(rs, n, tier):
         out.append(dict(kind=kind, rows=r, cols=c, leaf=leaf, adv=bool(i % 3 == 0), rows_n=int([2, 2, 3, 4, 5][(i // 3) % 5]),
                         n=int(rs.choice([5, 12, 40, 120, 300 if tier == "thorough" else 150])), d=int(rs.randint(2, 7)),
                         min_rows=int(rs.choice([1, 4, 16, 40])), min_cols=int(rs.choice([1, 2, 3]))))
+    # wide tables most of whose columns are constant: the zero-variance features are split off first and few variables, with
+    # LARGE indices among them, remain (the remaining columns and their variable ids must stay aligned)
+    for i in range(max(4, n // 6)):
+        out.append(dict(kind=["bin", "cat", "cont"][i % 3], rows=["kmeans", "random", "gmm"][i % 3], cols=["rdc", "random"][i % 2], leaf="mle", adv=False,
+                        rows_n=2, n=int(rs.choice([40, 120])), d=int(rs.choice([10, 12, 16, 34])), min_rows=int(rs.choice([4, 16])), min_cols=1,
+                        wide_keep=int(rs.choice([2, 3, 4]))))
     return out
 
 
